@@ -1,7 +1,7 @@
 PROPS["C03"] = dict(
     pkg="p_kv", hooks=["inmem"], level="exploration", design="DESIGN.md §4 C03",
     technique="model-based differential PBT: every op list runs on a reference model, the in-memory and the Redis (miniredis) backend; bounded-exhaustive op lists + rapid",
-    rule="case = op list over Create/Get/GetMany/Put/PutMany/CasByVersion/Delete/ListKeys with keys {a,a/,b,ab,a/b,k1,c\\d,a%,a%%,v%d,'',a/kvs/b} (the empty key included: known finding for ListKeys(\"?\") on the in-memory backend, see known_findings.txt); after PutMany the harness refills its record slice, after GetMany it overwrites the returned records (both belong to the caller); expiries also 'an hour ago' and the zero time (the key is then absent; on Redis after its minimum TTL of 1 ms), values {nil,'',x,yy}, "
+    rule="case = op list over Create/Get/GetMany/Put/PutMany/CasByVersion/Delete/ListKeys with keys {a,a/,b,ab,a/b,k1,c\\d,a%,a%%,v%d,'',a/kvs/b} (the empty key included: known finding for ListKeys(\"?\") on the in-memory backend, see known_findings.txt); a 'fill' operation (one op in twenty) writes 3..130 fresh keys f000,f001,... in one PutMany with a drawn value and expiry, so that stores of tens to hundreds of records (classes store_of_64_or_more_keys / store_of_256_or_more_keys) are part of the histories and every listing is compared over all of them; after PutMany the harness refills its record slice, after GetMany it overwrites the returned records (both belong to the caller); expiries also 'an hour ago' and the zero time (the key is then absent; on Redis after its minimum TTL of 1 ms), values {nil,'',x,yy}, "
          "expiry none/+1h/+100h/'never' (1 January..December of the years 2500, 2999, 9999, 10000, 10001, 25000, 292277, 1000000 in turn - on both sides of what int64 nanoseconds, RFC 3339 and protobuf timestamps express; "
          "the ExpiresAt read back must equal the one written; the clock does not move here), a third of the ListKeys ops open a second listing right after the first and read the two iterators in reverse order (each must yield the keys present at that moment), CAS version current/previous/empty/garbage, GetMany/PutMany lists of 0..4 "
          "keys with repeats, 18 glob patterns from the subset gobwas/glob and Redis MATCH agree on; exhaustive part: all lists to the depth in "
